@@ -20,9 +20,10 @@ HEARTBEAT_RESPONSE = 22
 
 def run(ctx: Ctx, chk) -> None:
     chk.assume("A3")
-    mono1(ctx, chk)
-    chain_eq(ctx, chk)
-    verdep1(ctx, chk)
+    chk.run_rule(mono1, ctx)
+    chk.run_rule(chain_eq, ctx)
+    chk.run_rule(verdep1, ctx)
+    chk.run_rule(except1, ctx)
 
 
 def vt(s: str):
@@ -214,3 +215,33 @@ def verdep1(ctx: Ctx, chk) -> None:
                 else:
                     chk.refute(rule, key, f"`{norm(par)[:80] if par is not None else norm(node)}` in {f.qualname} uses the protocol version as a value: handling of an older message type depends on the active version", ctx.loc(f, node))
     chk.floor(rule, "reads of the active protocol in handler code", n, 4)
+
+
+def except1(ctx: Ctx, chk) -> None:
+    rule = "EXCEPT-1"
+    chk.rule(rule, "the one exception the statement names is implemented as stated: the heartbeat response marks the node sleeping and reaches the flush in 2.0/2.1 but neither in 2.2, where the pre-sleep notification does both")
+    from ..prov import Canon
+
+    I = ctx.I
+    cells = tables.handler_cells(ctx)
+    flush_fqs = {f.fq for f in sb.flush_functions(ctx)}
+    plan = {"2.0": {22: True}, "2.1": {22: True}, "2.2": {22: False, 32: True}}
+    for V, want in plan.items():
+        if V not in cells:
+            continue
+        for value, wakes in want.items():
+            chk.instance(rule)
+            cal = cells[V].get(("internal", value))
+            flush = False
+            sleeping = False
+            if cal is not None:
+                flush = any(f.fq in flush_fqs for f, _fr in tables.reachable_defs(ctx, cal, V))
+                for f in tables.chain_defs(ctx, cal, V):
+                    for n in ctx.own_nodes(f):
+                        if isinstance(n, ast.Assign) and any(isinstance(t, ast.Attribute) and t.attr == "sleeping" for t in n.targets):
+                            sleeping = True
+            key = f"internal {value}@{V}"
+            if (flush, sleeping) == (wakes, wakes):
+                chk.ok(rule, key, "marks sleeping and flushes" if wakes else "neither marks sleeping nor flushes", cal.chain()[-1].func.where if cal else "")
+            else:
+                chk.refute(rule, f"internal-{value}::{V}::flush={flush},sleeping={sleeping}", f"under protocol {V} internal type {value} {'flushes' if flush else 'does not flush'} and {'marks' if sleeping else 'does not mark'} the node sleeping; the statement says it {'does both' if wakes else 'does neither'}", cal.chain()[-1].func.where if cal else I.vmod(V).relpath, version=V)
